@@ -235,6 +235,29 @@ CLAIMS = {
              'compared); JSON path text round trip _parse_path(eval_json_path(keys)); the registered py_array_* functions equal the Python operations on a grid.',
         note='JSON operators of PostgreSQL / MySQL / Oracle servers cannot be executed here: not covered; PostgreSQL array semantics is an assumed contract. Five known findings (type coercion in '
              'JSON comparisons, keys containing a double quote, negative JSON path index with JSON1, len() of non-arrays).'),
+    'C03': dict(
+        category='other',
+        text='BOUNDED stand-in (never counted as proved): decompile() of real code objects compiled by the running CPython for an enumerated family of sources - every not / and / or '
+             'formula with <= 4 (thorough: 5) leaves in every tree shape over three kinds of leaves (truth tests, comparisons incl. is None / in, mixed), as generator condition, generator '
+             'element and lambda body, with and without redundant parentheses; ~150 hand-written expressions (arithmetic, comparisons and chains, attributes, calls with keyword / star '
+             'arguments, subscripts and slices, constants, containers, f-strings, conditional expressions, nested generators) in the same three positions; multi-clause generators: the returned '
+             'tree, compiled again, evaluates like the original for every assignment of the free names over {0, 1, 2, None}, or decompile() rejects the source with an error.',
+        note='No contract within reach states "inverse of the CPython compiler" for all code objects; this is the function\'s postcondition checked on a finite family. Rejections are allowed by the property and are counted in the evidence.'),
+    'C27': dict(
+        category='other',
+        text='BOUNDED stand-in (never counted as proved): the real code end to end on SQLite over 4 hierarchies (linear chain, diamond, custom string discriminator, custom integer '
+             'discriminator) with one stored object per class: reached in a later session in 12 ways (by key through every ancestor, get / select / generator on the root, through a to-one '
+             'reference, through a collection, as an unloaded reference loaded on attribute access, select_by_sql, prefetch, projection, get by unique name) the object has its creation '
+             'class and identity; through a class it does not belong to it is not found; E.select(), count, exists and isinstance(x, T) / not isinstance / tuple forms / isinstance on a '
+             'related object inside queries agree with Python isinstance for every class and pair of classes.',
+        note='The property quantifies over all hierarchies and queries; this is an enumerated family. The class-refinement rule of the identity map is proved under C11.'),
+    'C23': dict(
+        category='other',
+        text='BOUNDED stand-in (never counted as proved): the same 6 observation programs (attribute values incl. lazy ones, related objects, collection contents, counts, emptiness, '
+             'membership, navigation chains, subclass attributes) run on the same stored data under 4 model variants (default; every non-key attribute and collection lazy; '
+             'collection batch loading disabled; batch loading from the first access) x 5 loading strategies (plain access, prefetch() of every relation and lazy attribute, objects first '
+             'seen as unloaded references, everything loaded by one big query first, reverse access order): every run observes exactly what the baseline run observes.',
+        note='A relation between whole runs: no single-call contract expresses it; this is a differential check on one model and data set. The oracle is the baseline run.'),
 }
 
 _NOT_BUILT = 'within reach of the technique per DESIGN.md, check not built yet'
